@@ -45,7 +45,10 @@ def cases(ctx):
                 vals[rng.randrange(len(vals))] = 255
             yield {"kind": kind, "shape": shape, "vals": vals, "dir": rng.randrange(4 if nd == 2 else 13), "dist": rng.choice([1, 1, 2, 3]),
                    "sym": rng.random() < 0.5, "dtype": dt, "layout": lay,
-                   "iz": rng.random() < 0.3}
+                   "iz": rng.random() < 0.3,
+                   # rarely used switches of haralick(): Haralick's printed (mis-typed) sum variance, the variance of the
+                   # |x-y| distribution instead of the variance of its values, and the summaries over the directions
+                   "hopts": {"bug": rng.random() < 0.3, "xmyvar": rng.random() < 0.3, "summary": rng.choice([None, None, "mean", "mean_ptp"])}}
         elif kind == "lbp":
             shape = [rng.randint(3, 9), rng.randint(3, 9)]
             yield {"kind": kind, "shape": shape, "vals": [rng.randint(0, 9) for _ in range(gen.size(shape))], "radius": rng.choice([1, 2]),
@@ -62,8 +65,14 @@ def cases(ctx):
                    "layout": lay, "dtype": dt}
         else:
             shape = [rng.randint(1, 8), rng.randint(1, 8)]
-            yield {"kind": kind, "shape": shape, "vals": [rng.randint(0, 9) for _ in range(gen.size(shape))], "layout": lay,
-                   "dtype": rng.choice(["uint8", "float64", "int32", "float32", "uint16", "int64"]), "inplace": rng.random() < 0.3}
+            c = {"kind": kind, "shape": shape, "vals": [rng.randint(0, 9) for _ in range(gen.size(shape))], "layout": lay,
+                 "dtype": rng.choice(["uint8", "float64", "int32", "float32", "uint16", "int64"]), "inplace": rng.random() < 0.3}
+            if rng.random() < 0.3:
+                # an integer accumulator dtype with prefix sums beyond 2**53: exact in int64/uint64, not in a double
+                c["acc"] = rng.choice(["int64", "uint64"])
+                c["vals"] = [rng.choice([2 ** 53 + 1, 2 ** 52 + 3, 1, 7, 2 ** 58 + 1]) for _ in range(gen.size(shape))]
+                c["dtype"] = c["acc"]
+            yield c
 
 
 def count_pairs(a, delta):
@@ -175,8 +184,10 @@ def run_case(ctx, case):
         if a0.max() == 0:
             return Result(True, False, None, "haralick/skip-zero")
         iz = case["iz"]
+        ho = case.get("hopts") or {}
+        hkw = {"preserve_haralick_bug": bool(ho.get("bug")), "use_x_minus_y_variance": bool(ho.get("xmyvar"))}
         try:
-            h = features.haralick(a, ignore_zeros=iz, distance=dist)
+            h = features.haralick(a, ignore_zeros=iz, distance=dist, **hkw)
         except ValueError:
             return Result(True, False, None, "haralick/valueerror")       # e.g. no non-zero pairs with ignore_zeros
         if not np.array_equal(a, keep):
@@ -189,16 +200,33 @@ def run_case(ctx, case):
                 C[:, 0] = 0
             if C.sum() == 0:
                 continue
-            ref = haralick_ref(C / C.sum())
+            Pn = C / C.sum()
+            ref = haralick_ref(Pn)
+            if ho.get("bug") or ho.get("xmyvar"):
+                Nn = Pn.shape[0]
+                ii, jj = np.mgrid[:Nn, :Nn]
+                pxpy = np.array([Pn[(ii + jj) == k].sum() for k in range(2 * Nn - 1)])
+                pxmy = np.array([Pn[np.abs(ii - jj) == k].sum() for k in range(Nn)])
+                if ho.get("bug"):       # sum variance around the sum ENTROPY (f8), as printed in the 1973 paper
+                    ref[6] = ((np.arange(2 * Nn - 1) - ref[7]) ** 2 * pxpy).sum()
+                if ho.get("xmyvar"):    # variance of the distribution of |x - y|
+                    mu = (np.arange(Nn) * pxmy).sum()
+                    ref[9] = ((np.arange(Nn) - mu) ** 2 * pxmy).sum()
             if not np.allclose(h[d], ref, rtol=1e-7, atol=1e-9):
                 k = int(np.argmax(np.abs(h[d] - ref)))
                 return Result(False, True, {"why": "haralick feature %d (direction %d) != textbook definition" % (k, d),
                                             "got": float(h[d][k]), "want": float(ref[k]), "ignore_zeros": iz})
-        r = features.haralick(np.ascontiguousarray(a0[tuple(slice(None, None, -1) for _ in range(nd))]), ignore_zeros=iz, distance=dist)
+        if ho.get("summary"):
+            hs = features.haralick(a, ignore_zeros=iz, distance=dist, return_mean=ho["summary"] == "mean",
+                                   return_mean_ptp=ho["summary"] == "mean_ptp", **hkw)
+            want = h.mean(0) if ho["summary"] == "mean" else np.concatenate([h.mean(0), np.ptp(h, 0)])
+            if np.shape(hs) != want.shape or not np.allclose(hs, want, rtol=1e-12, atol=1e-12):
+                return Result(False, True, {"why": "haralick(%s) is not the mean (and range) over the directions" % ho["summary"]})
+        r = features.haralick(np.ascontiguousarray(a0[tuple(slice(None, None, -1) for _ in range(nd))]), ignore_zeros=iz, distance=dist, **hkw)
         if not np.allclose(r, h, rtol=1e-9, atol=1e-12):
             return Result(False, True, {"why": "haralick not invariant under 180-degree rotation"})
         if nd == 2:
-            t = features.haralick(np.ascontiguousarray(a0.T), ignore_zeros=iz, distance=dist)
+            t = features.haralick(np.ascontiguousarray(a0.T), ignore_zeros=iz, distance=dist, **hkw)
             if not np.allclose(t[[2, 1, 0, 3]], h, rtol=1e-9, atol=1e-12):
                 return Result(False, True, {"why": "haralick: transposition does not permute the directions (0<->2, 1, 3 fixed)"})
         return Result(True, len(set(case["vals"])) > 1, None, "haralick/%dD%s" % (nd, "/iz" if iz else ""))
@@ -237,6 +265,15 @@ def run_case(ctx, case):
         if float(got) != float(want):
             return Result(False, True, {"why": "moments != defining sum", "got": float(got), "want": want})
         return Result(True, len(set(case["vals"])) > 1, None, "moments")
+    if kind == "integral" and case.get("acc"):
+        a64 = np.array(case["vals"], dtype=np.dtype(case["acc"])).reshape(case["shape"])
+        src = apply_layout(a64, case["layout"] if case["layout"] != "readonly" else "C", fill=1)
+        got = surf.integral(src, in_place=True) if case["inplace"] else surf.integral(src, dtype=np.dtype(case["acc"]))
+        ref = np.array(case["vals"], dtype=object).reshape(case["shape"]).cumsum(0).cumsum(1)
+        if got.shape != a64.shape or got.dtype != a64.dtype or [int(v) for v in got.reshape(-1)] != [int(v) for v in ref.reshape(-1)]:
+            return Result(False, True, {"why": "surf.integral with a 64-bit integer dtype != exact two-dimensional prefix sum",
+                                        "dtype": case["acc"], "want": [int(v) for v in ref.reshape(-1)], "got": [int(v) for v in got.reshape(-1)]})
+        return Result(True, True, None, "integral/" + case["acc"])
     if kind == "integral":
         if case["inplace"] and a0.dtype == np.float64:
             b = apply_layout(a0, case["layout"] if case["layout"] != "readonly" else "C", fill=1)
